@@ -51,7 +51,21 @@ def resolve(fn):
     return getattr(importlib.import_module(mod), name)
 
 
+_HISTORY = []       # (fn, job) executed so far by this process, in order
+
+
 def _tramp(arg):
+    fn, idx, job = arg
+    idx, res = _tramp_inner(arg)
+    if res.get('viol'):
+        # what this long-lived worker had executed before: lets the engine reproduce violations that
+        # need an earlier call in the same process (module-level state in the library)
+        res['history'] = list(_HISTORY)
+    _HISTORY.append((fn, job))
+    return idx, res
+
+
+def _tramp_inner(arg):
     fn, idx, job = arg
     try:
         res = resolve(fn)(job)
@@ -110,11 +124,15 @@ def digest(obj):
     return hashlib.sha1(json.dumps(obj, sort_keys=True, default=str).encode()).hexdigest()[:16]
 
 
-def write_replay(prop, fn, job, keys, what):
+def write_replay(prop, fn, job, keys, what, history=None):
     d = os.path.join(VERIF, 'replays', prop)
     os.makedirs(d, exist_ok=True)
     rec = {'property': prop, 'fn': fn, 'job': job, 'keys': sorted(keys)[:50], 'what': what}
-    path = os.path.join(d, digest([fn, job, sorted(keys)[:50]]) + '.json')
+    if history:
+        rec['history'] = [[f, j] for f, j in history]
+        rec['note'] = ('the violation needs the %d earlier call(s) listed under "history" to be made first in '
+                       'the same process' % len(history))
+    path = os.path.join(d, digest([fn, job, sorted(keys)[:50], len(history or [])]) + '.json')
     with open(path, 'w') as f:
         json.dump(rec, f, indent=1, default=str)
     return path
@@ -187,6 +205,8 @@ def run_check(prop, tier, layers, level_text='', assumptions=(), cap_s=None,
                 if lsample is None and res.get('sample') is not None:
                     lsample = res['sample']
                 for v in res.get('viol') or []:
+                    v = dict(v)
+                    v['_history'] = res.get('history') or []
                     viols.append((L.name, L.fn, L.jobs[idx], v))
             if lsample is not None:
                 samples.append({'layer': L.name, 'case': lsample})
@@ -238,6 +258,22 @@ def run_check(prop, tier, layers, level_text='', assumptions=(), cap_s=None,
             path = write_replay(prop, fn, job, keys, kvs[0][1].get('what', ''))
             if n < MAX_CONFIRM:
                 codes = confirm(path)
+                if codes != [1, 1]:
+                    # not reproducible from a fresh process: try with the calls the worker had made before
+                    hist = kvs[0][1].get('_history') or []
+                    tried = set()
+                    for k in [1, 2, 4, 8, 16, 32, 64, 128, 256, 512, len(hist)]:
+                        k = min(k, len(hist))
+                        if k in tried or not hist:
+                            continue
+                        tried.add(k)
+                        hpath = write_replay(prop, fn, job, keys, kvs[0][1].get('what', ''), hist[-k:])
+                        hcodes = confirm(hpath)
+                        if hcodes == [1, 1]:
+                            path, codes = hpath, hcodes
+                            kvs[0][1]['what'] = kvs[0][1].get('what', '') + \
+                                ' [only after %d earlier call(s) in the same process, see replay]' % k
+                            break
                 if codes == [1, 1]:
                     confirmed += 1
                     lines.append('VIOLATION property=%s replay=%s' % (prop, path))
@@ -307,6 +343,9 @@ def run_check(prop, tier, layers, level_text='', assumptions=(), cap_s=None,
         'violations': len(new),
     }
     write_evidence(prop, ev)
+    if extra.get('lemma_failures'):
+        lines.append('NOTE: reduction-lemma self-test failed in %d case(s): the size-N layers of this run do not '
+                     'cover all arrangements (see evidence counters)' % extra['lemma_failures'])
     for ln in lines:
         print(ln)
     print('%s %s seed=%d: states=%d transitions=%d nontrivial=%d outcomes=%d new=%d known=%d '
